@@ -58,10 +58,23 @@ MANIFEST = {
             "agent setting with each falsy value its schema accepts, without and with the competing sources. The node keys "
             "revealed_to_red / start_up_countdown / shut_down_countdown / is_resetting are part of build = declared (NodeFlags; "
             "node-state family on all seven node types incl. transitional states with countdowns). Variants are also compared by "
-            "canonical describe_state(); outside the Lean model, as declared-vs-built oracles only: custom observation-space component "
-            "labels, shared-reward wiring and reward calculation order. Tie: Gen/Config.lean (site inventory; constants; system-software, firewall-ACL, frequency tables; "
+            "canonical describe_state(). THE OTHER LOADERS (round 7, second shift): every keyword argument that Router / Firewall / "
+            "WirelessRouter.from_config (and the NIC(..) call of PrimaiteGame.from_config) read from a mapping of the file - ACL action, "
+            "ports, protocol, both address spellings, wildcard masks, port addresses and masks, route address / mask / next hop / metric - "
+            "is TRANSLATED (Gen kwargTable, one row per distinct expression, walrus / IfExp / or / in / lookup tables as opaque functions) "
+            "and proved equal to kwSpec for every value of the keys and every lookup table (C20_gen_kwargs_resolve): an ACL address is the "
+            "first declared spelling (src_ip, whatever its value) else the documented one (src_ip_address) else None in ALL eight ACL loops "
+            "(C20_acl_address_first_declared_spelling; C20_acl_address_or_rewrite_differs); this semantic tie REPLACES the text pin of "
+            "the address expressions. The rig evaluates the same translated expressions against kwSpec (counter-model -> scenario) and "
+            "runs both spellings x {absent, null, address} through the real loader on every ACL of every router-like node type. Outside "
+            "the Lean model, as declared-vs-built oracles only: custom observation-space component labels, shared-reward wiring INCLUDING "
+            "whose reward each component yields (sentinel rewards), reward calculation order, agent settings the file leaves out = the "
+            "schema defaults read off the source by ast; software right after loading: every kill-chain stage is the class's initial "
+            "member and the software states do not depend on the random generators (six generator states) - this is where the open "
+            "findings F-C20r7b-1/2 (a configured dos-bot executes its attack loop, random port-scan trial included, while the scenario "
+            "is loaded) are reported. Tie: Gen/Config.lean (site inventory; constants; system-software, firewall-ACL, frequency tables; "
             "assignment table and constructor chains of every software class; every key of the defaults section with the statement "
-            "that applies it; the keys the eight ACL rule loops read (both address spellings, each wildcard mask from its own key); "
+            "that applies it; the number of ACL rule loops per loader (what they read is translated, see above); "
             "wireless-router ports and sections; scheduler shape and freshness; no loader consumes its argument; install/uninstall "
             "shape; office-lan constants and wiring calls) + rig R-cfg: generated families, software-matrix scenarios, `enrich`ed "
             "scenarios (defaults, wireless router + airspace, node set with a cross link, documented ACL keys, bandwidth 0) and EVERY "
@@ -70,7 +83,8 @@ MANIFEST = {
             "AND spec; second build from the same mapping; environments from a user-held mapping; schedule directories used as reset() "
             "uses them; permuted / reversed / re-serialised / aliased / merge-key / commented / quoted-integer files; per KIND of integer "
             "site a quoted-integer variant must build the identical simulation or be refused loudly. PARTIAL: observation-space "
-            "construction and reward sharing are outside the model; pydantic's coercions are trusted; after reset() every node is "
+            "construction, reward sharing and agent-setting defaults are oracles outside the Lean model; the software `configure` request paths "
+            "and Switch / host constructors are not sliced (they resolve nothing from two sources: schema fields only); pydantic's coercions are trusted; after reset() every node is "
             "powered on (F-31, not claimed: states are compared at load time).",
     "note": "C20-specific: WellFormed asks for unique hostnames over nodes AND node-set nodes, unique option keys, registered "
             "frequencies, valid node sets; the spec theorem additionally asks that network_interfaces keys are the NIC numbers 2..m+1. "
@@ -584,6 +598,8 @@ def replay(rec: dict) -> bool:
         fails = check_variants(cfg, inv, Rng(1), rp.get("digest_steps", 0), 3, rp.get("formats"))
     if not fails and inv is not None and rp.get("env"):
         fails = check_env_twice(cfg, inv)[0]
+    if not fails and inv is not None and has_red_application(cfg):
+        fails = check_load_rng_independent(cfg)
     return not fails
 
 
